@@ -44,7 +44,8 @@ def ExtendReg(r, etype, shift=0, N=None):
     assert shift >= 0 and shift <= 4
     if N is None:
         N = r.size
-    signed = True if etype & 4 == 0 else False
+    # option<2> set: SXTB/SXTH/SXTW/SXTX, clear: UXTB/UXTH/UXTW/UXTX
+    signed = etype & 4 != 0
     l = 8 << (etype & 3)
     l = min(l, N - shift)
     return r[0:l].extend(signed, N) << shift
